@@ -310,7 +310,19 @@ async def _interp(run: Run, sdef: dict, ctx: Context, ev: Any, rn: int) -> Any:
             if getattr(ev, "k", None) == act[1]:
                 raise ET.Boom(f"e{act[2]}")
         elif op == "collect":
-            got = ctx.collect_events(ev, [ET.TYPES[t] for t in act[1]], buffer_id=act[2] if len(act) > 2 else None)
+            bufname = act[2] if len(act) > 2 else None
+            try:
+                from workflows.runtime.types.results import StepWorkerStateContextVar as _SWC
+                snap = [getattr(e, "uid", None) for e in _SWC.get().state.collected_events.get(bufname or "default", [])]
+                snap_tys = [ET.TY_ID.get(type(e), -1) for e in _SWC.get().state.collected_events.get(bufname or "default", [])]
+            except Exception:
+                snap, snap_tys = None, None
+            got = ctx.collect_events(ev, [ET.TYPES[t] for t in act[1]], buffer_id=bufname)
+            run.trace.steps.append(("collect_call", name, uid, rn, asyncio.get_event_loop().time(),
+                                    {"expected": list(act[1]), "buf": bufname or "default", "snapshot": snap, "snapshot_tys": snap_tys,
+                                     "ty": ET.TY_ID.get(type(ev), -1), "at_call": len(run.trace.calls),
+                                     "got": None if got is None else [e.uid for e in got],
+                                     "got_tys": None if got is None else [ET.TY_ID[type(e)] for e in got]}))
             if got is None:
                 return None
             run.trace.steps.append(("collected", name, uid, rn, asyncio.get_event_loop().time(),
